@@ -156,3 +156,51 @@ func VH_C16_pco_many() {
 	}
 	vrt.Equal(pco.Marshal(), wire, "PCO: serialising the parsed long list reproduces the input")
 }
+
+// Two serialisations alive at once / a parsed list kept while another is parsed: the octets returned by Marshal belong to
+// the caller (a later Marshal of another list must not change them, overwriting them must not change a later result),
+// and the units of a parsed list do not share memory with the input or with a list parsed later into another value.
+func VH_C16_results_held() {
+	mk := func(tag string, n int) *ProtocolConfigurationOptions {
+		pco := NewProtocolConfigurationOptions()
+		for i := 0; i < n; i++ {
+			l := vrt.Choose(fmt.Sprintf("%slen%d", tag, i), 0, 2)
+			u := NewProtocolOrContainerUnit()
+			u.ProtocolOrContainerID = vrt.U16(fmt.Sprintf("%sid%d", tag, i))
+			u.LengthOfContents = uint8(l)
+			u.Contents = vrt.Bytes(fmt.Sprintf("%sc%d", tag, i), l)
+			pco.ProtocolOrContainerList = append(pco.ProtocolOrContainerList, u)
+		}
+		return pco
+	}
+	a, b := mk("a", vrt.Choose("na", 0, 2)), mk("b", vrt.Choose("nb", 0, 2))
+	out1 := a.Marshal()
+	keep1 := append([]byte{}, out1...)
+	out2 := b.Marshal()
+	keep2 := append([]byte{}, out2...)
+	vrt.Equal(out1, keep1, "PCO: a serialisation the caller holds is not changed by serialising another list")
+	for i := range out1 {
+		out1[i] = ^out1[i]
+	}
+	vrt.Equal(out2, keep2, "PCO: two serialisations share no memory")
+	again := a.Marshal()
+	vrt.Equal(again, keep1, "PCO: serialising the same list again gives the same octets")
+	vrt.Equal(out2, keep2, "PCO: an earlier serialisation is not changed by a later call")
+	// parse, keep, parse another one, then overwrite the inputs
+	p1, p2 := NewProtocolConfigurationOptions(), NewProtocolConfigurationOptions()
+	vrt.Assert(p1.UnMarshal(keep1) == nil && p2.UnMarshal(keep2) == nil, "PCO: both serialisations parse")
+	for i := range keep1 {
+		keep1[i] = 0xee
+	}
+	for i := range keep2 {
+		keep2[i] = 0xdd
+	}
+	vrt.Assert(len(p1.ProtocolOrContainerList) == len(a.ProtocolOrContainerList), "PCO: first parsed list keeps its units")
+	for i, u := range p1.ProtocolOrContainerList {
+		vrt.Assert(u.ProtocolOrContainerID == a.ProtocolOrContainerList[i].ProtocolOrContainerID, "PCO: first parsed list keeps its identifiers")
+		vrt.Equal(u.Contents, a.ProtocolOrContainerList[i].Contents, "PCO: parsed contents do not alias the input or another parsed list")
+	}
+	for i, u := range p2.ProtocolOrContainerList {
+		vrt.Equal(u.Contents, b.ProtocolOrContainerList[i].Contents, "PCO: second parsed list keeps its contents")
+	}
+}
